@@ -60,6 +60,8 @@ LEAVES = [
     # must statements with a signed operand, and onto a default below a container nobody instantiates
     L("pl.lim", [["plain", []], ["lim", []]], "int8", ["i:-7", "i:3"], fam=["mustx"]),
     L("pl.lcheck", [["plain", []], ["lcheck", []]], "boolean", ["b:true"], fam=["mustx"]),
+    # a leaf-list with max-elements only (no min-elements)
+    L("pl.ml", [["plain", []], ["ml", []]], "leaf-list:string", ["ll:s:t1", "ll:s:t1|s:t2"], kind="leaflist", fam=["mustx"], bad=[["ll:s:t1|s:t2|s:t3", "maxelements"]]),
     L("pl.gcheck", [["plain", []], ["gcheck", []]], "boolean", ["b:true"], fam=["mustx"]),
     L("g.limit", [["glob", []], ["limit", []]], "uint8", ["u:1", "u:5"], default="u:2", fam=["mustx"]),
     # sys: constraints, defaults, presence, second namespace
